@@ -97,7 +97,8 @@ def explore_template(t: Template, tier: str, seed: int):
             except (ModelGap, PathAbort) as g:
                 res["gaps"]["comparable: " + str(g)[:80]] += 1
                 continue
-            f_sym, f_real = H.jsonable(facts), H.jsonable(conc.get("facts", {}))
+            strip = lambda d: {k: x for k, x in (d or {}).items() if not str(k).startswith("_")}  # noqa: E731
+            f_sym, f_real = H.jsonable(strip(facts)), H.jsonable(strip(conc.get("facts", {})))
             if not _cmp_struct(c_sym, c_real) or not _cmp_struct(f_sym, f_real):
                 res["mismatches"].append(dict(what="observation differs", sym=H.jsonable(c_sym), real=H.jsonable(c_real),
                                               facts_sym=f_sym, facts_real=f_real, vals=H.jsonable(wvals)))
@@ -118,6 +119,13 @@ def explore_template(t: Template, tier: str, seed: int):
                                               real=bad[2], vals=H.jsonable(wvals), facts=f_sym))
                 continue
             res["replayed_ok"] += 1
+            # concrete complement: assertions that only exist on the real side (text-level clauses no solver term can
+            # carry) are evaluated on every path witness; they are reported, but are not part of the solver claim
+            sym_labels = {l for l, _ in asserts}
+            for label, val in conc.get("asserts", []):
+                if label not in sym_labels and not bool(val) and sum(1 for c in res["cex"] if c["label"] == label) < MAX_CEX_PER_LABEL:
+                    res["cex"].append(dict(tid=t.tid, label=label, vals=H.jsonable(wvals), facts=H.jsonable(conc.get("facts", {})), confirmed=True,
+                                           detail="concrete complement on the path witness (not solver-decided)", args=H.jsonable(list(t.args))))
         if len(res["samples"]) < 2:
             res["samples"].append(dict(template=t.tid, inputs=H.jsonable(wvals), facts=H.jsonable(facts),
                                        observation=H.jsonable(H.comparable(out.get("obs"), wvals)) if out.get("obs") else None,
